@@ -46,6 +46,29 @@ def run_cell(cfg, cx):
     ckey = C06.cfg_key(cfg)
     meta = {}
     out = I.sym_call(lambda W, B, x: C06.apply_layer(b, W, B, x, b["torus"], meta), b["W"], b["B"], b["x"])
+    # every (input type, target type) pair whose filter type is in the bank must carry weights: otherwise the block cannot
+    # contain that input's contribution to the defining sum
+    missing = [(ik, ok) for ik, _ in b["in_sig"] for ok, _ in b["out_sig"]
+               if ((ik[0] + ok[0]), (ik[1] + ok[1]) % 2) in b["filters"] and ok not in b["layer"].weights.get(ik, {})]
+
+    def replay_missing(vals, bvals):
+        import jax
+        W, B, x = C06.conc_params(cx, b, {})
+        rng = np.random.RandomState(0)
+        W = {ik: {ok: jnp.asarray(rng.normal(size=w.shape), dtype=jnp.float32) for ok, w in d.items()} for ik, d in W.items()}
+        x0 = {q: jnp.asarray(rng.normal(size=v.shape), dtype=jnp.float32) for q, v in x.items()}
+        base_out = C06.apply_layer(b, W, B, x0, b["torus"])
+        for ik, ok in missing:
+            x1 = dict(x0)
+            x1[ik] = x0[ik] + 1.0
+            o1 = C06.apply_layer(b, W, B, x1, b["torus"])
+            if ok not in base_out or float(np.max(np.abs(np.asarray(o1[ok]) - np.asarray(base_out[ok])))) == 0.0:
+                return True, f"output block {ok} is missing or does not depend on input type {ik} although a filter of type {((ik[0] + ok[0]), (ik[1] + ok[1]) % 2)} exists"
+        return False, "all reachable pairs contribute"
+    cx.structural("weights exist for every reachable (input, target) pair", not missing, f"no weights for reachable pairs {missing}",
+                  replay=replay_missing, key=f"pairs:{ckey}")
+    if missing:
+        return
     expect = LC.ref_conv_contract_layer(refs, S, D, {kp: v.a for kp, v in b["x"].items()},
                                         {ik: {ok: w.a for ok, w in d.items()} for ik, d in b["W"].items()},
                                         {ok: v.a for ok, v in b["B"].items()}, b["filters"], b["in_sig"], b["out_sig"], b["torus"],
